@@ -200,6 +200,9 @@ func (t *trTranslator) leanType(from *trUnit, ty types.Type, pos token.Pos) stri
 		if op, ok := trOpaque[x.Obj().Pkg().Path()+"."+x.Obj().Name()]; ok {
 			return op
 		}
+		if r, ok := t.createNodeType(x); ok {
+			return r // a struct of the syntax tree: the structure of the syntax-layer translator (trans_units_create.go)
+		}
 		if r, ok := t.treeType(from, x, pos); ok {
 			return r
 		}
